@@ -319,16 +319,33 @@ structure SInv (s : ChState κ) : Prop where
   hnid : ∀ h ∈ s.vlistNext, h.nidl < s.nidNext
   pos : 1 ≤ s.nidNext
 
+/-- the body of the sweep with the vertex-cover routine as a parameter -/
+def siteStepWith (cover : Ptn.Bip.BGraph → Except Err (List Nat × List Nat)) (s : ChState κ) :
+    Except Err (ChState κ) := do
+  let p ← sitePartition s.vlistNext s.coeffsNext
+  let bigraph ← Ptn.Bip.BGraph.mk' p.ulist.length p.vlist.length
+    (p.edges.map fun e => ((e.1 : Int), (e.2 : Int)))
+  let (uCover, vCover) ← cover bigraph
+  let s : ChState κ := { s with vlistNext := [], coeffsNext := [], edges := p.edges }
+  let s ← uCover.foldlM (uCoverStep p.ulist p.vlist p.gamma bigraph.adjU) s
+  let s ← vCover.foldlM (vCoverStep p.ulist p.vlist p.gamma bigraph.adjV) s
+  pyAssert s.edges.isEmpty
+  pure s
+
+/-- the model's sweep step is the instance with `minimum_vertex_cover` -/
+theorem siteStep_eq_with (s : ChState κ) : siteStep s = siteStepWith Ptn.Bip.minimumVertexCover s := rfl
+
 /-- **The half-chain invariant.**  If one sweep step does not raise then, for whatever cover lists the
 vertex-cover routine returned, the half-chain sum after the step with one more letter consumed equals the
 half-chain sum before the step.  (Side facts: the new half-chains sit at new nodes and are tails of old ones.) -/
-theorem siteStep_sem (s s' : ChState κ) (h : siteStep s = .ok s') (hS : SInv s) :
+theorem siteStepWith_sem (cover : Ptn.Bip.BGraph → Except Err (List Nat × List Nat))
+    (s s' : ChState κ) (h : siteStepWith cover s = .ok s') (hS : SInv s) :
     SInv s' ∧
     (∀ o r b, hsum (edgeList s'.graph) s'.vlistNext s'.coeffsNext (o :: r) b
         = hsum (edgeList s.graph) s.vlistNext s.coeffsNext r (o :: b)) ∧
     (∀ h' ∈ s'.vlistNext, s.nidNext ≤ h'.nidl) ∧
     (∀ h' ∈ s'.vlistNext, ∃ h ∈ s.vlistNext, ∃ o, h.oids = o :: h'.oids) := by
-  unfold siteStep at h
+  unfold siteStepWith at h
   simp only [bind_ok_iff, pyAssert_ok_iff, pure_ok_iff] at h
   obtain ⟨p, hp, bg, _, ⟨uc, vc⟩, _, s2, hu, s3, hv, _, hemp, hs3⟩ := h
   subst hs3
@@ -363,5 +380,13 @@ theorem siteStep_sem (s s' : ChState κ) (h : siteStep s = .ok s') (hS : SInv s)
     obtain ⟨v, hv', ho, _⟩ := h3.src h' hh'
     obtain ⟨_, _, hc, hc1, o, hc2⟩ := hI.vsrc v hv'
     exact ⟨hc.1, (of_mem_zip (a := hc.1) (b := hc.2) hc1).1, o, by rw [hc2, ho]⟩
+
+theorem siteStep_sem (s s' : ChState κ) (h : siteStep s = .ok s') (hS : SInv s) :
+    SInv s' ∧
+    (∀ o r b, hsum (edgeList s'.graph) s'.vlistNext s'.coeffsNext (o :: r) b
+        = hsum (edgeList s.graph) s.vlistNext s.coeffsNext r (o :: b)) ∧
+    (∀ h' ∈ s'.vlistNext, s.nidNext ≤ h'.nidl) ∧
+    (∀ h' ∈ s'.vlistNext, ∃ h ∈ s.vlistNext, ∃ o, h.oids = o :: h'.oids) :=
+  siteStepWith_sem _ s s' (by rw [← siteStep_eq_with]; exact h) hS
 
 end Ptn.Ch
